@@ -459,6 +459,7 @@ package client
 //@ ensures [C11:multipartheader] calls(GO) == 1 ==> calls(BD) == 1 && arg(BD,0,0) == ret(NW,0,0) && calls(MCT) == 1 && arg(MCT,0,0) == mediaType && arg(MCT,0,1) == ret(BD,0,0) && arg(HS,0,0) == after(WTR, r.header) && arg(HS,0,1) == "Content-Type" && arg(HS,0,2) == ret(MCT,0,0)
 //@ ensures [C11:form] ret(WTR,0,0) == nil && F() && !M() ==> calls(ENC) >= 1 && arg(ENC,0,0) == after(WTR, r.formFields) && calls(WS) == 1 && arg(WS,0,0) == ret(NBF,0,0) && arg(WS,0,1) == ret(ENC,0,0) && calls(PR) == 0 && arg(HS,0,0) == after(WTR, r.header) && arg(HS,0,1) == "Content-Type" && arg(HS,0,2) == mediaType
 //@ ensures [C11:produce] calls(PR) == 1 ==> !F() && P() && !implements(after(WTR, r.payload), "io.Reader") && before(PR, in(mediaType, producers)) && recv(PR,0) == before(PR, producers[mediaType]) && arg(PR,0,0) == boxas(ret(NBF,0,0), "*bytes.Buffer") && arg(PR,0,1) == after(WTR, r.payload) && arg(HS,0,0) == after(WTR, r.header) && arg(HS,0,1) == "Content-Type" && arg(HS,0,2) == mediaType
+//@ ensures [C11:payloadheader] ret(WTR,0,0) == nil && !F() && P() ==> calls(HS) >= 1 && arg(HS,0,0) == after(WTR, r.header) && arg(HS,0,1) == "Content-Type" && arg(HS,0,2) == mediaType
 //@ ensures [C11:producefail] calls(PR) == 1 && ret(PR,0,0) != nil ==> result0 == nil && result1 == ret(PR,0,0)
 //@ ensures [C11:noproducer] ret(WTR,0,0) == nil && !F() && P() && !implements(after(WTR, r.payload), "io.Reader") && (!after(WTR, in(mediaType, producers)) || after(WTR, producers[mediaType]) == nil) ==> result1 != nil && calls(PR) == 0
 //@ ensures [C11:buffer] ret(WTR,0,0) == nil ==> r.buf == ret(NBF,0,0) && ret(NBF,0,0) != nil
